@@ -481,6 +481,21 @@ func checkContent(h *History, vs []*opView) {
 		if cr == nil || cr.Conn == nil {
 			continue
 		}
+		// a stream connection that carried nothing but well-formed queries gets
+		// nothing but responses to them: a frame under an id that was never
+		// sent there consists of bytes made for something else (what did not fit
+		// an earlier frame, another connection's response)
+		if (cr.Proto == "tcp" || cr.Proto == "tls" || cr.Proto == "gnet") && len(cr.Unmatched) > 0 && h.RP.CloseAtUs == 0 {
+			clean := true
+			for _, o := range h.Ops {
+				if o.Op.Conn == cr.Conn.Idx && (o.Op.Raw != nil || o.Op.NQ != 1 || o.Op.Bits&refdns.BitQR != 0) {
+					clean = false
+				}
+			}
+			if clean {
+				h.S.Fail("C04", "stray-frame", "conn %d (%s): %d frames under ids that were never sent on this connection (first: %d bytes %x): data that belongs to no response of this connection's queries", cr.Conn.Idx, cr.Proto, len(cr.Unmatched), len(cr.Unmatched[0].B), trunc(cr.Unmatched[0].B, 24))
+			}
+		}
 		for _, r := range cr.Unmatched {
 			um, err := refdns.Parse(r.B)
 			if err != nil || um == nil {
